@@ -564,6 +564,14 @@ def rule_R(toks, au, opts=None):
         au.note("R", "std::io:: -> io:: (shim module)")
         toks[i + 3].ws = toks[i].ws
         del toks[i:i + 3]
+    # crate::util::X -> X  (the items of util - AnyTlsError, Result, ... - are in scope at the top level of the assembled file)
+    while True:
+        i = find_seq(toks, ["crate", ":", ":", "util", ":", ":"])
+        if i < 0:
+            break
+        au.note("R", "crate::util:: -> top-level items")
+        toks[i + 6].ws = toks[i].ws
+        del toks[i:i + 6]
     # std::net::X -> X  (shim address types)
     while True:
         i = find_seq(toks, ["std", ":", ":", "net", ":", ":"])
